@@ -69,4 +69,5 @@ pub fn run(ctx: &Ctx) {
         }
     });
     crate::hist::histories(ctx, P, "key-histories", "PrivateKey::new / public / address, a sequence on one fresh thread", crate::hist::c04_ops());
+    crate::hist::long_runs(ctx, P, "key-long-runs", "PrivateKey::new / address, a long run on one fresh thread", if ctx.quick() { 40 } else { 300 }, crate::hist::c04_nth());
 }
